@@ -11,15 +11,18 @@ var (
 func EscapeAttrVal(buf *[]byte, b []byte) []byte {
 	singles := 0
 	doubles := 0
+	spaces := 0 // tabs and line breaks, which a reader would turn into blanks unless they are written as references
 	for _, c := range b {
 		if c == '"' {
 			doubles++
 		} else if c == '\'' {
 			singles++
+		} else if c == '\t' || c == '\n' || c == '\r' {
+			spaces++
 		}
 	}
 
-	n := len(b) + 2
+	n := len(b) + 2 + spaces*4
 	var quote byte
 	var escapedQuote []byte
 	if doubles > singles {
@@ -42,6 +45,17 @@ func EscapeAttrVal(buf *[]byte, b []byte) []byte {
 		if c == quote {
 			j += copy(t[j:], b[start:i])
 			j += copy(t[j:], escapedQuote)
+			start = i + 1
+		} else if c == '\t' || c == '\n' || c == '\r' {
+			j += copy(t[j:], b[start:i])
+			j += copy(t[j:], "&#")
+			if c == '\t' {
+				j += copy(t[j:], "9;")
+			} else if c == '\n' {
+				j += copy(t[j:], "10;")
+			} else {
+				j += copy(t[j:], "13;")
+			}
 			start = i + 1
 		}
 	}
